@@ -141,7 +141,10 @@ pub fn xen_fail_next() {
 ///
 /// # Safety
 /// `arg` must point to the ioctl argument structure the request number announces.
+// Always inlined: the real ioctl writes its result into `*arg` behind a shared reference; inlining
+// keeps that store visible to the caller's later read of the same structure.
 #[cfg(all(feature = "xen", target_family = "unix"))]
+#[inline(always)]
 pub unsafe fn xen_ioctl_with_ref<F: std::os::unix::io::AsRawFd, T>(
     _fd: &F,
     req: std::os::raw::c_ulong,
@@ -161,7 +164,7 @@ pub unsafe fn xen_ioctl_with_ref<F: std::os::unix::io::AsRawFd, T>(
             let count = std::ptr::read_unaligned(p as *const u32);
             let first_ref = std::ptr::read_unaligned(p.add(20) as *const u32);
             let index = first_ref as u64 * page;
-            std::ptr::write_unaligned(p.add(8) as *mut u64, index);
+            std::ptr::write_volatile(p.add(8) as *mut u64, index);
             XEN_LOG.with(|l| l.borrow_mut().push(XenReq { map: true, index, count }));
             0
         }
